@@ -817,6 +817,11 @@ impl<T: Elem + SatisfyTraits<Tr>, M: MX, Tr: TrX + ?Sized> Runner for Cfg<T, M, 
             Err(msg) => {
                 if M::build_panics(T::SIZE) && msg.starts_with("construction panicked") { out.outcome.push_str("construct-panics"); }
                 else if let Some(m) = msg.strip_prefix("FIXED-CAPACITY: ") { out.fail(Class::Cap, "fixed-capacity", format!("{}: {m}", M::name())); }
+                else if msg.starts_with("construction panicked") {
+                    // a constructor that panics although the backend can hold the requested state
+                    let class = if M::RESIZABLE { Class::Vec } else { Class::Cap };
+                    out.fail(class, "construction-panicked", format!("constructing an empty {}-backed vector of {} ({} bytes, align {}) panicked: {msg}", M::name(), T::NAME, T::SIZE, T::ALIGN));
+                }
                 else { out.fail(Class::Machinery, "construction", msg); }
                 return out;
             }
